@@ -32,6 +32,7 @@ const REQUIRED: &[&str] = &[
     "consume-wrong-payload-hash",
     "consume-split-variant",
     "consume-never-approved",
+    "advance-ledger",
 ];
 
 struct World {
@@ -219,7 +220,21 @@ pub fn run(ctx: &Ctx, rep: &mut Report) {
             }
             let k = rng.pick(&w.keys.clone()).clone();
             let st_before = status_name(&w.g.model, &k);
-            let op = rng.weighted(&[3, 3, 6]);
+            let op = rng.weighted(&[3, 3, 6, 1]);
+            if op == 3 {
+                // time passes: the recorded history must not change (the sweep below re-reads everything)
+                let d = rng.ledger_jump();
+                if !w.u.advance(d) {
+                    continue;
+                }
+                rep.step(format!("ledger advances by {} to {}", d, w.u.seq()));
+                rep.count("advance-ledger");
+                if let Some(d) = sweep(&mut w) {
+                    rep.violation("status-changed-by-passing-time", d);
+                    dead = true;
+                }
+                continue;
+            }
             match op {
                 0 | 1 => {
                     // approval, single or batch (with in-batch duplicates)
@@ -464,7 +479,7 @@ pub fn run(ctx: &Ctx, rep: &mut Report) {
         }
     }
     rep.notes.insert("required".into(), json!(REQUIRED));
-    rep.notes.insert("rule".into(), json!("universes of 50 operations over 6 (chain,id) keys whose concatenations collide, 2-3 contents per key; ops: single/batched honest approvals with in-batch duplicates, consumption in 9 variants (conforming, again, wrong caller, no/stranger/other-arguments authorisation, wrong source address, wrong payload hash, split variant); after every op every key x content (and single-field variations) is queried; distinct = (op class, key status before, consumable, outcome)"));
+    rep.notes.insert("rule".into(), json!("universes of 50 operations over 6 (chain,id) keys whose concatenations collide, 2-3 contents per key; ops: single/batched honest approvals with in-batch duplicates, consumption in 9 variants (conforming, again, wrong caller, no/stranger/other-arguments authorisation, wrong source address, wrong payload hash, split variant), ledger advancement by 1 to 1 300 000 ledgers; after every op every key x content (and single-field variations) is queried; distinct = (op class, key status before, consumable, outcome)"));
 }
 
 fn dedup_keys(batch: &[MMessage]) -> usize {
